@@ -55,9 +55,17 @@ def build_value(v):
 
 
 def snap(x):
+    """Both views: the ordered pairs and, per key, what the mapping view reports."""
     from pvl.collections import OrderedMultiDict
     if isinstance(x, OrderedMultiDict):
-        return ("C", type(x).__name__, [(k, snap(v)) for k, v in list(x)])
+        pairs = [(k, snap(v)) for k, v in list(x)]
+        mapping = []
+        for k in dict.fromkeys(k for k, _ in pairs):
+            try:
+                mapping.append((k, [snap(v) for v in x.getall(k)], snap(x[k])))
+            except Exception as e:
+                mapping.append((k, type(e).__name__))
+        return ("C", type(x).__name__, pairs, mapping, len(x))
     if isinstance(x, list):
         return ("L", [snap(i) for i in x])
     return ("V", type(x).__name__, repr(x))
@@ -154,6 +162,11 @@ def _run_case(case):
                 c10.apply_real(target, op, type(target))
             except Exception:
                 pass
+        why = c10.check_views(other, list(other), type(other))
+        if why is not None:
+            return (f"C11/{kind_family(kind)}/aliasing-views",
+                    f"{kind}: after mutating the {case['side']} with {op!r} the other "
+                    f"side's views disagree: {why}")
         if snap(other) != before:
             lvl = "top" if not path else "nested"
             return (f"C11/{kind_family(kind)}/aliasing-{lvl}",
